@@ -12,6 +12,9 @@ Definition unread (s : fb) : list Z := slice (mem s) (read_index s) (write_index
 Definition len_ (s : fb) : Z := write_index s - read_index s.
 Definition wlen (SIZE : Z) (s : fb) : Z := SIZE - write_index s.
 
+(* normal form: an empty buffer sits at offset 0 (established by every constructor, kept by every call) *)
+Definition nf (s : fb) : Prop := read_index s = write_index s -> write_index s = 0.
+
 Lemma zlen_unread SIZE s : Inv SIZE s -> zlen (unread s) = len_ s.
 Proof. intros (H1&H2&H3&H4&H5). unfold unread, len_. apply zlen_slice; lia. Qed.
 
@@ -189,6 +192,11 @@ Proof.
   destruct Hf as (_ & Hu & Hi'). destruct Hc as (Hl & Hw & Hz).
   split; [exact Hi'|]. split; [exact Hu|]. split; [unfold after_read; destruct (_ =? _); reflexivity|].
   split; [exact Hl|]. split; [exact Hw|exact Hz].
+Qed.
+Lemma nf_after_read s n : Inv SIZE s -> 0 <= n <= len_ s -> nf (after_read s n).
+Proof.
+  intros (H1&H2&H3&H4&H5) Hn. unfold nf, after_read, len_ in *.
+  destruct (read_index s + n =? write_index s) eqn:E; cbn [read_index write_index]; lia.
 Qed.
 Lemma after_read_0 s : Inv SIZE s -> 0 < len_ s -> after_read s 0 = s.
 Proof.
